@@ -110,10 +110,13 @@ def ggh_programs(tier):
         for k, bits in enumerate(itertools.product((0, 1), repeat=n)):
             if tier == "quick" and n >= 5 and k % 3:
                 continue
-            for kind in ("S", "SB", "c"):
+            for kind in ("S", "SB", "c", "mixSc", "mixcS"):
+                if kind.startswith("mix") and n < 2:
+                    continue
                 steps, refs = [], []
                 for j, b in enumerate(bits):
-                    if kind == "S":
+                    # mixed lists: traced bits and plain-integer bits in one message (secret first / constant first, alternating)
+                    if kind == "S" or (kind == "mixSc" and j % 2 == 0) or (kind == "mixcS" and j % 2 == 1):
                         steps.append({"op": "new", "kind": "priv", "ty": "int", "v": b})
                     elif kind == "SB":
                         steps.append({"op": "new", "kind": "priv", "ty": "bool", "v": b})
@@ -122,7 +125,7 @@ def ggh_programs(tier):
                     refs.append({"r": j})
                 steps.append({"op": "hash", "which": "ggh", "a": {"l": refs}, "tag": "main"})
                 progs.append({"id": "ggh/%d/%d/%s" % (n, k, kind), "ign": False, "steps": steps,
-                              "meta": {"which": "ggh", "vals": list(bits), "kind": kind, "paramset": "", "class": "ggh/%d/%s" % (n, kind), "expectok": kind != "SB"}})
+                              "meta": {"which": "ggh", "vals": list(bits), "kind": kind, "paramset": "", "class": "ggh/%d/%s" % (n, kind), "expectok": kind not in ("SB", "mixcS")}})
     return progs
 
 
